@@ -694,4 +694,82 @@ theorem learn_evs (cfg : Cfg) (fuel prevNum g0 : Nat) (r : Run) (totalArg : Nat)
   rw [h, foldH_tree, feedAll_evs]
   simp
 
+/-! ### termination of `learn` with step-counted rollouts -/
+
+section Term
+variable {σ : Type}
+
+/-- potential: an upper bound on the number of control-flow steps still to be made -/
+def phi (k d : Nat) (s : LS σ) : Nat :=
+  match s.pc with
+  | .done => 0
+  | .finish => 1
+  | .loopHead => 2 + (k + 3) * (s.total - s.num)
+  | .start => 3 + (k + 3) * (s.total - s.num)
+  | .rolloutTail => 3 + (k + 3) * (s.total - s.num)
+  | .inRollout c _ => 4 + (k - c) + (k + 3) * (s.total - (s.num + (k - c) * d))
+
+theorem phi_next (cfg : Cfg) (h : σ → Call → σ × Bool) (k : Nat) (hk : 0 < k) (hd : 0 < cfg.nEnvs)
+    (hkind : cfg.kind = .steps k) (s : LS σ) (hpc : s.pc ≠ .done) :
+    phi k cfg.nEnvs (s.next cfg h) < phi k cfg.nEnvs s := by
+  unfold LS.next
+  split
+  · rename_i hp; simp [phi, hp]
+  · rename_i hp
+    split
+    · rename_i hlt
+      simp only [phi, hp, invoke_num, invoke_total, Nat.sub_zero]
+      have hK : 0 < k * cfg.nEnvs := Nat.mul_pos hk hd
+      generalize k * cfg.nEnvs = K at hK
+      have h1 : s.total - (s.num + K) + 1 ≤ s.total - s.num := by omega
+      have h2 := Nat.mul_le_mul_left (k + 3) h1
+      rw [Nat.mul_succ] at h2
+      omega
+    · simp [phi, hp]; omega
+  · rename_i c e hp
+    split
+    · rename_i hm
+      have hc : c < k := by simpa [hkind, RolloutKind.more] using hm
+      simp only [LS.invoke]
+      generalize h s.cb (Call.updateLocals (s.g + 1)) = r1
+      generalize h r1.1 (Call.step (s.num + cfg.nEnvs)) = r2
+      rcases r2 with ⟨cb2, ok2⟩
+      cases ok2
+      · simp [phi, hp]; omega
+      · simp only [phi, hp, cond_true]
+        have e : (k - c) * cfg.nEnvs = cfg.nEnvs + (k - (c + 1)) * cfg.nEnvs := by
+          have : k - c = (k - (c + 1)) + 1 := by omega
+          rw [this, Nat.succ_mul]; omega
+        rw [e]
+        have : s.num + cfg.nEnvs + (k - (c + 1)) * cfg.nEnvs = s.num + (cfg.nEnvs + (k - (c + 1)) * cfg.nEnvs) := by omega
+        rw [this]
+        omega
+    · rename_i hm
+      have hc : k ≤ c := by
+        have : ¬ c < k := by simpa [hkind, RolloutKind.more] using hm
+        omega
+      have : k - c = 0 := by omega
+      simp [phi, hp, this]
+  · rename_i hp
+    cases cfg.onPolicy <;> simp [phi, hp]
+  · rename_i hp; simp [phi, hp]
+  · rename_i hp; exact absurd hp hpc
+
+theorem runN_terminates (cfg : Cfg) (h : σ → Call → σ × Bool) (k : Nat) (hk : 0 < k) (hd : 0 < cfg.nEnvs)
+    (hkind : cfg.kind = .steps k) : ∀ (n : Nat) (s : LS σ), phi k cfg.nEnvs s ≤ n → (LS.runN cfg h n s).pc = .done := by
+  intro n
+  induction n with
+  | zero =>
+    intro s hs
+    cases hp : s.pc <;> simp [phi, hp] at hs
+    simpa [LS.runN] using hp
+  | succ n ih =>
+    intro s hs
+    by_cases hp : s.pc = .done
+    · rw [runN_done cfg h _ s hp]; exact hp
+    · have := phi_next cfg h k hk hd hkind s hp
+      exact ih _ (by omega)
+
+end Term
+
 end SB3Verif.Callback.Lemmas
